@@ -986,6 +986,101 @@ def oracle_robust(ctx, stats=None):
     return found
 
 
+def zero_patterns(n):
+    """FIXED asymmetric zero patterns for user weights over n points (indices in x order)."""
+    blk = np.ones(n)
+    blk[3:9] = 0                                   # a block near the left edge only
+    sc = np.ones(n)
+    sc[[1, 5, 6, n // 2 - 3, n - 4]] = 0           # scattered, not mirror symmetric
+    rs = np.random.RandomState(20260802)
+    rnd = (rs.uniform(0, 1, n) > 0.35).astype(float)
+    rnd[0] = rnd[-1] = 1.0
+    val = rs.uniform(0.2, 1.0, n)
+    return [('left block of zeros (0/1)', blk), ('scattered zeros (0/1)', sc), ('random mask (bool)', rnd.astype(bool)),
+            ('scattered zeros x positive values', sc * val)]
+
+
+def oracle_zero_weights(ctx, stats=None):
+    """FIXED grid: every method that takes user weights (classification methods use them as a MASK: only zero vs
+    non-zero matters, so all-positive weights cannot show a wrong order), with weights containing zeros placed
+    asymmetrically, on reversed / rolled / shuffled x; 1-D and 2-D; plus the wrappers handing such weights on."""
+    rng = ctx.rng
+    found = 0
+    n = 47
+    x = distinct_x(rng, n, 0.0, 100.0)
+    y = y_1d(rng, x)
+    perms = [('reversed', np.arange(n)[::-1].copy()), ('rolled by 7', np.roll(np.arange(n), 7)),
+             ('shuffled', rand_perm(random_fixed(8), n))]
+    pats = zero_patterns(n)
+    names = [nm for nm in M.method_names() if 'weights' in sig_params(nm) and nm != 'collab_pls']
+    cells = [(nm, {}) for nm in names]
+    cells += [('fabc', {'weights_as_mask': True}), ('rubberband', {'lam': 1.0}), ('rubberband', {'segments': 2}),
+              ('cwt_br', {'poly_order': 3}), ('dietrich', {'interp_half_window': 2})]
+    for name, extra in cells:
+        for plabel, perm in perms:
+            for wlabel, w in pats:
+                def build(p, w=w, extra=extra):
+                    return dict(extra, weights=w if p is None else w[p])
+                ref, got, ld = run_pair_1d(name, x, y, perm, build, with_logs=True)
+                label = '%s(%sweights: %s), x %s' % (name, ''.join('%s=%r, ' % kv for kv in extra.items()), wlabel, plabel)
+                ctx.case(('zw', label), nontrivial=not isinstance(ref, str), kind='oracle1d:zero-weights')
+                err = judge(ref, got, perm, (n,), False, name, stats) or ld
+                if err:
+                    found += 1
+                    ctx.fail('order:1d:%s:zero-weights' % name,
+                             'Baseline(x[perm]).%s is not the permuted result of the sorted call (N=%d): %s' % (label, n, err),
+                             {'kind': 'zero-weights', 'two_d': False, 'method': name, 'extra': {k: repr(v) for k, v in extra.items()},
+                              'x': [float(v) for v in x], 'y': [float(v) for v in y], 'perm': [int(v) for v in perm],
+                              'w': [float(v) for v in np.asarray(w, dtype=float)], 'bool': bool(np.asarray(w).dtype == bool)})
+    # wrappers handing user weights with zeros on to a mask-using method
+    for meth, base, mn, mx in (('cwt_br', {'scales': [2, 3, 4]}, 1, 3), ('dietrich', {'smooth_half_window': 2}, 1, 3),
+                               ('fabc', {'scale': 3}, 2, 4), ('rubberband', {}, 2, 4)):
+        for plabel, perm in perms[1:]:
+            for wlabel, w in pats[:3]:
+                def build(p, w=w, meth=meth, base=base, mn=mn, mx=mx):
+                    return {'method': meth, 'min_value': mn, 'max_value': mx, 'side': 'both',
+                            'method_kwargs': dict(base, weights=w if p is None else w[p])}
+                ref, got, ld = run_pair_1d('optimize_extended_range', x, y, perm, build, with_logs=True)
+                label = 'optimize_extended_range[%s](method_kwargs weights: %s), x %s' % (meth, wlabel, plabel)
+                ctx.case(('zw', label), nontrivial=not isinstance(ref, str), kind='oracle1d:zero-weights')
+                err = judge(ref, got, perm, (n,), False, 'optimize_extended_range', stats, extra={'oer_side': 'both'}) or ld
+                if err:
+                    found += 1
+                    ctx.fail('order:1d:optimize_extended_range:zero-weights:%s' % meth,
+                             'Baseline(x[perm]).%s is not the permuted result of the sorted call (N=%d): %s' % (label, n, err),
+                             {'kind': 'zero-weights-wrapper', 'label': label})
+    # 2-D
+    m, nn = 11, 14
+    x2 = distinct_x(rng, m, -3.0, 8.0)
+    z2 = distinct_x(rng, nn, 10.0, 50.0)
+    _, _, y2 = M.make_z2d(nprng(rng), m, nn)
+    w2a = np.ones((m, nn))
+    w2a[1:4, 2:9] = 0                                # a block in one corner region
+    w2b = (np.random.RandomState(77).uniform(0, 1, (m, nn)) > 0.3).astype(float)
+    perms2 = [('x rolled', (np.roll(np.arange(m), 3), np.arange(nn))), ('z reversed', (np.arange(m), np.arange(nn)[::-1].copy())),
+              ('x and z shuffled', (rand_perm(random_fixed(9), m), rand_perm(random_fixed(10), nn)))]
+    for name in [nm for nm in M.method_names(True) if 'weights' in sig_params(nm, True) and nm != 'collab_pls']:
+        for plabel, perm in perms2:
+            for wlabel, w in (('corner block of zeros', w2a), ('random 0/1', w2b)):
+                def build(p, w=w):
+                    return {'weights': w if p is None else take(w, p, True)}
+                ref, got, ld = run_pair_2d(name, x2, z2, y2, perm, build, with_logs=True)
+                label = '%s(weights: %s), %s' % (name, wlabel, plabel)
+                ctx.case(('zw2', label), nontrivial=not isinstance(ref, str), kind='oracle2d:zero-weights')
+                err = judge(ref, got, perm, (m, nn), True, name, stats) or ld
+                if err:
+                    found += 1
+                    ctx.fail('order:2d:%s:zero-weights' % name,
+                             'Baseline2D(x[px], z[pz]).%s is not the permuted result of the sorted call: %s' % (label, err),
+                             {'kind': 'zero-weights-wrapper', 'label': label})
+    return found
+
+
+def random_fixed(k):
+    import random as _r
+    return _r.Random('C02-fixed-%d' % k)
+
+
 # ------------------------------------------------------------------------------------------------ setup log
 class SetupLog:
     """Records the weight array every _setup_* call returns (the array that reaches the solves).  On permuted
@@ -1024,7 +1119,8 @@ class SetupLog:
         return False
 
 
-LOG_EXEMPT = {'fabc', 'rubberband', 'individual_axes'}   # individual_axes: one 1-D fit per row/column, run in the
+LOG_EXEMPT = {'fabc', 'rubberband', 'cwt_br', 'individual_axes'}   # cwt_br: calls _setup_polynomial(y, weight_array, ...) on the
+# already sorted mask only to build the Vandermonde and DISCARDS the (doubly sorted) arrays it returns;   # individual_axes: one 1-D fit per row/column, run in the
 # SUPPLIED order of the other axis, so the sequence of _setup_* calls is itself permuted (outputs and nested params are compared)
 
 
@@ -1734,6 +1830,10 @@ def run(ctx):
     f2 = oracle_2d(ctx, b2, stats=stats)
     f3 = oracle_functional(ctx, b1)
     f7 = oracle_nodata(ctx)
+    f9 = oracle_zero_weights(ctx, stats=stats)
+    ctx.note('user weights containing ZEROS placed asymmetrically (4 fixed patterns incl. boolean masks; every method taking weights, '
+             'fabc weights_as_mask, rubberband lam/segments, optimize_extended_range handing them to mask-using methods; reversed / '
+             'rolled / shuffled x; 2-D corner block and random 0/1): %d failing' % f9)
     f8 = oracle_robust(ctx, stats=stats)
     ctx.note('calls WITHOUT data (methods whose data may be None: %s; class + functional interface, 3 permutations x 3 orders of '
              'baseline_points x 4 interpolation kinds x 2 sizes): %d failing; robustness grid (history with rejected calls, '
@@ -1846,6 +1946,20 @@ def replay(rep):
         err = judge(ref, got, perm, y.shape, two_d, wrapper, extra=extra) or ld
         print('replay %s:' % label, err or 'property holds on this input')
         return 1 if err else 0
+    if kind == 'zero-weights':
+        x = np.array(case['x'])
+        y = np.array(case['y'])
+        perm = np.array(case['perm'], dtype=np.intp)
+        w = np.array(case['w']).astype(bool) if case['bool'] else np.array(case['w'])
+        extra = {k: eval(v) for k, v in case['extra'].items()}
+        ref, got, ld = run_pair_1d(case['method'], x, y, perm, lambda p: dict(extra, weights=w if p is None else w[p]),
+                                   with_logs=True)
+        err = judge(ref, got, perm, (len(x),), False, case['method']) or ld
+        print('replay %s(weights with zeros%s):' % (case['method'], ', %s' % extra if extra else ''), err or 'property holds on this input')
+        return 1 if err else 0
+    if kind == 'zero-weights-wrapper':
+        print('replay: fixed-grid case "%s"; re-run ./bin/check C02 quick to reproduce' % case.get('label'))
+        return 1
     if kind == 'nodata':
         import pybaselines.misc as misc
         from pybaselines import Baseline
